@@ -110,6 +110,14 @@ func (fc *FnCtx) chanRecv(fr *Frame, st *State, chv ssa.Value, ch Term, elem typ
 			old = intLit(0)
 		}
 		st.cells[ck] = fc.nameTerm("recvd", tIte(cond, tAdd(old, intLit(1)), old))
+		// sawEmpty("Struct.field"): the last thing this function learnt about the channel is that it was
+		// empty (a non-blocking select over it took its default branch); any successful receive resets it
+		ek := cellKey{0, "sawempty:" + k}
+		oldE, ok := st.cells[ek].(Term)
+		if !ok {
+			oldE = tFalse
+		}
+		st.cells[ek] = fc.nameTerm("sawempty", tAnd(tNot(cond), oldE))
 	}
 	v := fc.havocValue(st, "recv", elem)
 	ci := fc.chanInvFor(chv)
@@ -148,6 +156,17 @@ func (fc *FnCtx) execSelect(fr *Frame, st *State, x *ssa.Select) Val {
 		} else {
 			elem := unalias(s.Chan.Type()).Underlying().(*types.Chan).Elem()
 			res.Elems = append(res.Elems, fc.chanRecv(fr, st, s.Chan, ch, elem, cond))
+			if !x.Blocking {
+				// the default branch of a non-blocking select is only taken when no receive case is ready
+				if k := fc.recvKey(s.Chan); k != "" {
+					ek := cellKey{0, "sawempty:" + k}
+					oldE, ok := st.cells[ek].(Term)
+					if !ok {
+						oldE = tFalse
+					}
+					st.cells[ek] = fc.nameTerm("sawempty", tOr(tEq(idx, intLit(-1)), oldE))
+				}
+			}
 		}
 	}
 	return res
